@@ -19,7 +19,7 @@ LEVEL = "model_checking"
 CFG = dict(
     value_only=(),
     views=("all", "s1", "rev", "st2", "na", "T", "flat", "r22", "r32", "rav", "sw", "dg", "c1", "c2", "sq", "i_1"),
-    ops1=("mul2", "sq2"),
+    ops1=("mul2", "sq2", "sumc"),
     ops2=(),
     set_idx=(),
     iops=(),
@@ -134,7 +134,13 @@ def run_task(task):
         acc.inc("transitions", 1 if h else 0)
         acc.states.add(m.digest())
         failed = False
-        for order in (perms(names) if has_view else [tuple(names)]):
+        orders = perms(names) if has_view else [tuple(names)]
+        if has_view and len(names) >= 2:
+            # terminals that leave one tensor out (a dangling view, or a view consumed only by a constant branch)
+            for drop in names:
+                rest = [n for n in names if n != drop]
+                orders += perms(rest) if len(rest) <= 3 else [tuple(rest)]
+        for order in orders:
             f = run_one(init, h, seed, order)
             acc.inc("evaluations")
             if f is not None:
@@ -180,7 +186,9 @@ def plan(tier, seed):
 
 def _fails(init, h, seed, order):
     names = [i[0] for i in init] + [s[1] for s in h]
-    order = [n for n in order if n in names] + [n for n in names if n not in order]
+    order = [n for n in order if n in names]
+    if not order:
+        return None
     return run_one(init, h, seed, order)
 
 
